@@ -115,14 +115,28 @@ func pkColumns(schema *sdb.Schema, ind *sdb.SchemaIndex) []int {
 		panic("can't call pkColumns on a rowid table")
 	}
 
+	// SQLite adds every primary key column to the index, unless it already has
+	// that column with the same collation.
+	collate := func(c string) string {
+		if c == "" {
+			return sdb.DefaultCollate
+		}
+		return strings.ToLower(c)
+	}
 	var res []int
 	for _, c := range schema.PK {
-		if in := ind.Column(c.Column); in < 0 {
-			ind.Columns = append(ind.Columns, c)
-			res = append(res, len(ind.Columns)-1)
-		} else {
-			res = append(res, in)
+		in := -1
+		for i, ic := range ind.Columns {
+			if strings.EqualFold(ic.Column, c.Column) && collate(ic.Collate) == collate(c.Collate) {
+				in = i
+				break
+			}
 		}
+		if in < 0 {
+			ind.Columns = append(ind.Columns, c)
+			in = len(ind.Columns) - 1
+		}
+		res = append(res, in)
 	}
 	return res
 }
